@@ -212,6 +212,9 @@ def run_graph(ctx: Ctx) -> None:
                 traces.append(d.run(ops))
             finally:
                 d.close()
+            if len(traces) % 50 == 0:
+                import gc
+                gc.collect()      # SQLite connections are closed by their finalisers (thorough tier ran out of descriptors)
             meta.append({"family": fam, "ops": ops})
     verdicts, r = tlc.validate_traces("WaitGraphTrace", "WaitGraphTrace.cfg", traces, timeout=3000)
     ctx.traces += len(traces)
